@@ -7,6 +7,7 @@ import (
 	"sort"
 	"strings"
 	"sync"
+	"sync/atomic"
 
 	"verif/internal/hist"
 	"verif/internal/vc"
@@ -79,16 +80,24 @@ func c04MissingBlobs(c *Ctx) {
 	}
 	maxMask := 1 << n
 	var wg sync.WaitGroup
+	var hangs int32
 	sem := make(chan struct{}, 40)
 	for mask := 1; mask < maxMask; mask++ {
 		if !c.Thorough && popcount(mask) > 3 && popcount(mask) < n-1 {
 			continue // quick: all subsets of size <= 3, and the (almost) full set
+		}
+		if atomic.LoadInt32(&hangs) >= 2 {
+			c.R.Cap("two builds hung: the remaining cache-entry subsets were not run")
+			break
 		}
 		wg.Add(1)
 		sem <- struct{}{}
 		go func(mask int) {
 			defer wg.Done()
 			defer func() { <-sem }()
+			if atomic.LoadInt32(&hangs) >= 2 {
+				return
+			}
 			box, err := pre.CloneTo(base)
 			if err != nil {
 				c.R.BrokenCheck("clone: %v", err)
@@ -102,7 +111,7 @@ func c04MissingBlobs(c *Ctx) {
 					removed = append(removed, e[:strings.Index(e, "/")+9])
 				}
 			}
-			rr := box.Run(grog, hist.RunOpts{Args: []string{"build", "//..."}, Ceiling: 90e9})
+			rr := box.Run(grog, hist.RunOpts{Args: []string{"build", "//..."}, Ceiling: 45e9})
 			replay := map[string]any{"removed_cache_entries": removed, "exit": rr.Exit, "grog_output_tail": tail(rr.Output, 800)}
 			kinds := map[string]bool{}
 			for _, r := range removed {
@@ -113,7 +122,8 @@ func c04MissingBlobs(c *Ctx) {
 				c.R.Violate(vc.Violation{Sig: sig, Detail: fmt.Sprintf("cache entries %v missing before a build that restores all outputs: ", removed) + fmt.Sprintf(format, a...), Replay: replay})
 			}
 			if rr.TimedOut {
-				vio("C04:build-hangs-when-cache-entries-are-missing:"+cls, "grog build did not exit within 90 s (%d entries missing)", len(removed))
+				atomic.AddInt32(&hangs, 1)
+				vio("C04:build-hangs-when-cache-entries-are-missing:"+cls, "grog build did not exit within 45 s (%d entries missing)", len(removed))
 			} else if rr.Exit != 0 {
 				vio("C04:build-fails-when-cache-entries-are-missing:"+cls, "grog exited %d instead of re-executing what was lost: %s", rr.Exit, tail(rr.Output, 400))
 			} else {
